@@ -502,4 +502,217 @@ theorem foldl_enforceOne_get (env : Env) (user : List (String × Value)) (ks : L
       have hk' : ¬ k = k0 := fun e => hk e.symm
       simp only [hget, List.mem_cons, hk', false_or]
 
+/-! ### what a key holds after a whole history (round 3) -/
+
+/-- the value a user map offers for `k`, if the key's specification accepts it -/
+def validOffer (env : Env) (specs : Specs) (k : String) (u : List (String × Value)) : Option Value :=
+  match getKey u k with
+  | some v => if verdict env specs k v = .valid then some v else none
+  | none => none
+
+/-- what `CreatingDefaults` stores under `k`: the default of a non-optional specification, nothing otherwise -/
+def defaultEntry (specs : Specs) (k : String) : Option Value :=
+  match specs.find k with
+  | some s => if s.optional then none else some s.default
+  | none => none
+
+theorem getKey_defaultsOf_none {specs : Specs} {k : String} (h : k ∉ specs.keys) :
+    getKey (defaultsOf specs) k = none := by
+  cases hg : getKey (defaultsOf specs) k with
+  | none => rfl
+  | some v =>
+    obtain ⟨s, hs, hk, _, _⟩ := getKey_defaultsOf hg
+    exact absurd (List.mem_map.mpr ⟨s, hs, hk⟩) h
+
+theorem createDefaults_get {specs : Specs} (hn : nodupKeys specs.keys = true) (k : String) :
+    (createDefaults specs).get k = defaultEntry specs k := by
+  show getKey (defaultsOf specs) k = defaultEntry specs k
+  unfold defaultEntry
+  induction specs with
+  | nil => rfl
+  | cons a rest ih =>
+    have hn' := nodupKeys_cons (k := a.key) (rest := Specs.keys rest) hn
+    simp only [Specs.find, defaultsOf]
+    by_cases hk : a.key = k
+    · subst hk
+      simp only [if_true]
+      cases ho : a.optional
+      · simp [getKey]
+      · simpa using getKey_defaultsOf_none hn'.1
+    · simp only [hk, if_false]
+      cases ho : a.optional
+      · simp only [Bool.false_eq_true, if_false, getKey, hk]
+        exact ih hn'.2
+      · simpa using ih hn'.2
+
+theorem verdict_valid_mem_keys {env : Env} {specs : Specs} {k : String} {v : Value}
+    (h : verdict env specs k v = .valid) : k ∈ specs.keys := by
+  obtain ⟨s, hs, _⟩ := (verdict_valid_iff env specs k v).mp h
+  obtain ⟨hmem, hkey⟩ := find_some hs
+  exact List.mem_map.mpr ⟨s, hmem, hkey⟩
+
+@[simp] theorem applyPost_get (env : Env) (post : Post) (p : Params) (k : String) :
+    (applyPost env post p).get k = p.get k := by
+  unfold Params.get; rw [applyPost_map]
+
+/-- one `SetParameters`, either mode: a key takes the offered value if its specification accepts it,
+else keeps what it had -/
+theorem setParameters_get (env : Env) (c : Component) (p : Params) (u : List (String × Value))
+    (hn : nodupKeys p.specs.keys = true) (hu : nodupKeys (u.map (·.1)) = true) (k : String) :
+    (setParameters env c p u).get k = (validOffer env p.specs k u).or (p.get k) := by
+  unfold setParameters
+  rw [applyPost_get]
+  unfold validOffer
+  cases hm : c.mode
+  · simp only [assign]
+    rw [assignAll_get env p u hu k]
+    cases getKey u k with
+    | none => simp
+    | some v => simp only; split <;> simp
+  · simp only [assign]
+    unfold assignEnforced
+    rw [foldl_enforceOne_get env u _ p hn k]
+    cases hg : getKey u k with
+    | none => simp
+    | some v =>
+      simp only
+      by_cases hv : verdict env p.specs k v = .valid
+      · simp [hv, verdict_valid_mem_keys hv]
+      · simp [hv]
+
+/-- a whole history from any state: the latest accepted offer, else what the state held -/
+theorem foldl_setParameters_get (env : Env) (c : Component) (users : List (List (String × Value)))
+    (p : Params) (hs : p.specs = c.specs) (hn : nodupKeys c.specs.keys = true)
+    (hu : ∀ u ∈ users, nodupKeys (u.map (·.1)) = true) (k : String) :
+    (users.foldl (setParameters env c) p).get k =
+      (users.reverse.findSome? (validOffer env c.specs k)).or (p.get k) := by
+  induction users generalizing p with
+  | nil => simp
+  | cons u rest ih =>
+    simp only [List.foldl_cons, List.reverse_cons, List.findSome?_append]
+    rw [ih _ (by rw [setParameters_specs, hs]) (fun u' h' => hu u' (List.mem_cons_of_mem _ h'))]
+    rw [setParameters_get env c p u (hs ▸ hn) (hu u List.mem_cons_self) k, hs]
+    have h1 : List.findSome? (validOffer env c.specs k) [u] = validOffer env c.specs k u := by
+      cases h : validOffer env c.specs k u <;> simp [List.findSome?, h]
+    rw [h1]
+    cases List.findSome? (validOffer env c.specs k) rest.reverse <;> simp
+
+/-! ### errors only grow -/
+
+theorem assign_errors_prefix (env : Env) (mode : Mode) (p : Params) (u : List (String × Value)) :
+    ∃ extra, (assign env mode p u).errors = p.errors ++ extra := by
+  cases mode
+  · exact ⟨_, assignAll_errors env p u⟩
+  · exact ⟨_, foldl_enforceOne_errors env u _ p⟩
+
+theorem setParameters_errors_prefix' (env : Env) (c : Component) (p : Params) (u : List (String × Value)) :
+    ∃ extra, (setParameters env c p u).errors = p.errors ++ extra := by
+  unfold setParameters
+  obtain ⟨e2, h2, _⟩ := applyPost_errors_prefix env c.post (assign env c.mode p u)
+  obtain ⟨e1, h1⟩ := assign_errors_prefix env c.mode p u
+  exact ⟨e1 ++ e2, by rw [h2, h1, List.append_assoc]⟩
+
+theorem foldl_setParameters_errors_prefix (env : Env) (c : Component) (users : List (List (String × Value)))
+    (p : Params) : ∃ extra, (users.foldl (setParameters env c) p).errors = p.errors ++ extra := by
+  induction users generalizing p with
+  | nil => exact ⟨[], by simp⟩
+  | cons u rest ih =>
+    simp only [List.foldl_cons]
+    obtain ⟨e1, h1⟩ := setParameters_errors_prefix' env c p u
+    obtain ⟨e2, h2⟩ := ih (setParameters env c p u)
+    exact ⟨e1 ++ e2, by rw [h2, h1, List.append_assoc]⟩
+
+/-- `AssignAllUserValues` components: an unsupported key of any map of the history is in the final errors -/
+theorem foldl_setParameters_reports_unsupported (env : Env) (c : Component) (hm : c.mode = .all)
+    (users : List (List (String × Value))) (p : Params) (hs : p.specs = c.specs)
+    (u : List (String × Value)) (hu : u ∈ users) (k : String) (v : Value) (hmem : (k, v) ∈ u)
+    (hk : k ∉ c.specs.keys) :
+    Err.unsupported k ∈ (users.foldl (setParameters env c) p).errors := by
+  induction users generalizing p with
+  | nil => cases hu
+  | cons u' rest ih =>
+    simp only [List.foldl_cons]
+    rcases List.mem_cons.mp hu with h | h
+    · subst h
+      obtain ⟨extra, he⟩ := foldl_setParameters_errors_prefix env c rest (setParameters env c p u)
+      rw [he]
+      apply List.mem_append_left
+      unfold setParameters
+      obtain ⟨e2, h2, _⟩ := applyPost_errors_prefix env c.post (assign env c.mode p u)
+      rw [h2]
+      apply List.mem_append_left
+      simp only [assign, hm]
+      rw [assignAll_errors]
+      apply List.mem_append_right
+      rw [List.mem_filterMap]
+      refine ⟨(k, v), hmem, ?_⟩
+      have : Specs.find p.specs k = none := by
+        cases hf : Specs.find p.specs k with
+        | none => rfl
+        | some s =>
+          exfalso; apply hk
+          obtain ⟨hs', hkey⟩ := find_some hf
+          rw [← hs]
+          exact List.mem_map.mpr ⟨s, hs', hkey⟩
+      simp [verdict, this, errOf]
+    · exact ih _ (by rw [setParameters_specs, hs]) h
+
+/-! ### fan-out (round 3) -/
+
+theorem verdict_invalid_mem_keys {env : Env} {specs : Specs} {k : String} {v : Value}
+    (h : verdict env specs k v = .invalid) : k ∈ specs.keys := by
+  unfold verdict at h
+  cases hf : Specs.find specs k with
+  | none => rw [hf] at h; cases h
+  | some s =>
+    obtain ⟨hmem, hkey⟩ := find_some hf
+    exact List.mem_map.mpr ⟨s, hmem, hkey⟩
+
+/-- an offered value that the key's specification rejects is reported by `SetParameters`, either mode -/
+theorem setParameters_reports_invalid (env : Env) (c : Component) (p : Params) (u : List (String × Value))
+    (k : String) (v : Value) (hoffer : getKey u k = some v) (hv : verdict env p.specs k v = .invalid) :
+    Err.invalid k ∈ (setParameters env c p u).errors := by
+  unfold setParameters
+  obtain ⟨e2, h2, _⟩ := applyPost_errors_prefix env c.post (assign env c.mode p u)
+  rw [h2]
+  apply List.mem_append_left
+  cases hm : c.mode
+  · simp only [assign]
+    rw [assignAll_errors]
+    apply List.mem_append_right
+    rw [List.mem_filterMap]
+    exact ⟨(k, v), getKey_some_mem hoffer, by simp [hv, errOf]⟩
+  · simp only [assign]
+    unfold assignEnforced
+    rw [foldl_enforceOne_errors]
+    apply List.mem_append_right
+    rw [List.mem_filterMap]
+    exact ⟨k, verdict_invalid_mem_keys hv, by simp [hoffer, hv, errOf]⟩
+
+theorem mem_mergedErrors {parts : List Part} {e : Err} :
+    e ∈ mergedErrors parts ↔ ∃ pt ∈ parts, e ∈ pt.p.errors := by
+  simp [mergedErrors, List.mem_flatMap]
+
+theorem reportsErrors_iff (parts : List Part) :
+    reportsErrors parts = true ↔ ∃ pt ∈ parts, pt.p.errors ≠ [] := by
+  unfold reportsErrors
+  rw [Bool.not_eq_true', List.isEmpty_eq_false_iff_exists_mem]
+  constructor
+  · rintro ⟨e, he⟩
+    obtain ⟨pt, hpt, hmem⟩ := mem_mergedErrors.mp he
+    exact ⟨pt, hpt, List.ne_nil_of_mem hmem⟩
+  · rintro ⟨pt, hpt, hne⟩
+    obtain ⟨e, he⟩ := List.exists_mem_of_ne_nil _ hne
+    exact ⟨e, mem_mergedErrors.mpr ⟨pt, hpt, he⟩⟩
+
+theorem foldl_fanOut (users : List (List (String × Value))) (parts : List Part) :
+    users.foldl fanOut parts =
+      parts.map fun pt => { pt with p := users.foldl (setParameters pt.env pt.comp) pt.p } := by
+  induction users generalizing parts with
+  | nil => simp
+  | cons u rest ih =>
+    simp only [List.foldl_cons]
+    rw [ih]
+    simp [fanOut, Part.set, List.map_map, Function.comp_def]
+
 end Crem.Params
